@@ -165,4 +165,26 @@ theorem runOps_good {c : Cfg} {σ : RunSt} (hg : Good c σ) (ops : List Op) (hs 
     obtain ⟨σ2, hr, hg2, he⟩ := ih hg1 (h2 σ1 hop)
     exact ⟨σ2, by simp only [runOps, hop]; exact hr, hg2, ha.ext.trans he⟩
 
+/-- a history without crashes has no bad cut -/
+theorem noBadCut_steps (c : Cfg) (σ : RunSt) (rs : List (SeqResp × ExecResp)) :
+    NoBadCut c σ (rs.map fun r => Op.step r.1 r.2) := by
+  induction rs generalizing σ with
+  | nil => rfl
+  | cons r rs ih =>
+    unfold NoBadCut
+    simp only [List.map_cons, noBadCut, opStep, Bool.true_and]
+    exact ih _
+
+/-- once a block is committed the saved state is the node's state -/
+theorem synced_some {c : Cfg} {n : Node} (hi : Inv c n) (hs : Synced c n) (hh : c.initialHeight ≤ n.store.height) :
+    n.store.state = some n.lastState ∧ c.initialHeight ≤ n.lastState.lastHeight := by
+  rcases hs with h | ⟨_, h2⟩
+  · exact h
+  · exfalso
+    have := hi.hs
+    rw [h2] at this
+    simp only [genesisState] at this
+    have := hi.ihPos
+    omega
+
 end Producer
